@@ -61,10 +61,13 @@ def run_fresh_each(exe, lines, workers=NCPU):
         return list(ex.map(one, lines))
 
 
+def translate():
+    # structural facts of the current source (gen/TabSync.v), regenerated BEFORE the theorems are built
+    return c16.run_gosync()
+
+
 def extra(rep, impl_exe, model_exe, rng, tier):
     viol = []
-    # structural facts come from gosync (also used by the theorems)
-    rep.cov["translator_sync"] = c16.run_gosync()
     # (a) one long history in one process vs each call alone in a fresh process
     n = 150 if tier == "quick" else 1500
     base = J.jobs(rng, n)
